@@ -1,12 +1,100 @@
-(* Walk/Proofs.v — proofs about the Walk model (C18). *)
+(* Walk/Proofs.v — the C18 theorems, instantiated on the generated tables (Gen/WalkSchema.v). *)
 From Coq Require Import List Arith Bool Lia Permutation.
-From Verif Require Import Walk.Schema Walk.Model Gen.WalkSchema Walk.Harness.
+From Verif Require Import Walk.Schema Walk.Model Walk.Lemmas Walk.Covers Walk.Trace Walk.NoPanic Walk.Visit
+     Gen.WalkSchema Walk.Harness.
 Import ListNotations.
 
-(* The generated table covers the generated schema. *)
+(* The generated table covers the generated schema (finite check, re-done whenever T2's output changes). *)
 Lemma gen_covers : covers gen_spec = true.
 Proof. vm_compute. reflexivity. Qed.
 
 Lemma gen_covers_fields :
   forallb (fun t => perm_eqb (visited gen_spec t) (node_fields gen_spec t)) (seq 0 (ntypes gen_spec)) = true.
+Proof. vm_compute. reflexivity. Qed.
+
+(* every pointer field is walked under a nil guard, every struct field by address, every arm exists *)
+Lemma gen_arms_normal :
+  forallb (fun t => forallb (visit_ok gen_spec t) (visits_of gen_spec t) &&
+                    match arm_of gen_spec t with Some _ => true | None => match fields_of gen_spec t with [] => true | _ => false end end)
+          (seq 0 (ntypes gen_spec)) = true.
+Proof. vm_compute. reflexivity. Qed.
+
+Section Gen.
+Variable V : Type.
+Variable enter : list (event V) -> V -> path -> ty -> flavour -> option V.
+
+Lemma well_typed_parts t : well_typed gen_spec t = true ->
+  wt_from gen_spec t = true /\ false = is_wrapper gen_spec (tree_ty t).
+Proof.
+  unfold well_typed. intros H. apply andb_true_iff in H. destruct H as [H W].
+  apply andb_true_iff in H. destruct H as [H _]. apply negb_true_iff in H. now split.
+Qed.
+
+Lemma walk_no_panic_proof v0 t :
+  walk_p gen_spec V enter v0 t = (walk gen_spec V enter v0 t, false).
+Proof. apply walk_p_eq. exact gen_covers. Qed.
+
+Lemma walk_visits_each_once_proof v0 t :
+  (forall h v p a fl, enter h v p a fl <> None) ->
+  well_typed gen_spec t = true ->
+  Permutation (entered V (fst (walk_p gen_spec V enter v0 t))) (all_nodes gen_spec t) /\
+  NoDup (all_nodes gen_spec t).
+Proof.
+  intros D WT. destruct (well_typed_parts t WT) as [W F]. rewrite walk_no_panic_proof. cbn [fst]. split.
+  - now apply pwalk_entered_perm; [exact gen_covers|..].
+  - apply nodes_from_NoDup; [exact gen_covers|exact W].
+Qed.
+
+Lemma walk_balanced_proof v0 t : bal V enter v0 [] (fst (walk_p gen_spec V enter v0 t)).
+Proof. rewrite walk_no_panic_proof. apply pwalk_bal. Qed.
+
+Lemma walk_nothing_else_proof v0 t e :
+  well_typed gen_spec t = true ->
+  In e (fst (walk_p gen_spec V enter v0 t)) -> In (e_path e) (all_nodes gen_spec t).
+Proof.
+  intros WT H. destruct (well_typed_parts t WT) as [W F]. rewrite walk_no_panic_proof in H.
+  eapply pwalk_in_nodes; [exact gen_covers|exact W|exact F|exact H].
+Qed.
+
+End Gen.
+
+(* ---- non-vacuity: a concrete well-typed tree with every kind of field ------------------------------------------ *)
+(* class A { #p = x; m(){} }  as Go holds it: a ClassDecl with a name and two class elements *)
+Definition leaf (t : ty) : tree := Node t [].
+Definition ex_params : tree := Node T_Params [(F_Params_List, []); (F_Params_Rest, [])].
+Definition ex_block : tree := Node T_BlockStmt [(F_BlockStmt_List, [leaf T_EmptyStmt])].
+Definition ex_field : tree :=
+  Node T_Field
+    [(F_Field_Name, [Node T_ClassElementName [(F_ClassElementName_PropertyName, []);
+                                              (F_ClassElementName_Private, [leaf T_Var])]]);
+     (F_Field_Init, [leaf T_Var])].
+Definition ex_method : tree :=
+  Node T_MethodDecl
+    [(F_MethodDecl_Name, [Node T_ClassElementName
+        [(F_ClassElementName_PropertyName, [Node T_PropertyName [(F_PropertyName_Literal, [leaf T_LiteralExpr]);
+                                                                 (F_PropertyName_Computed, [])]]);
+         (F_ClassElementName_Private, [])]]);
+     (F_MethodDecl_Params, [ex_params]); (F_MethodDecl_Body, [ex_block])].
+Definition ex_class : tree :=
+  Node T_ClassDecl
+    [(F_ClassDecl_Name, [leaf T_Var]); (F_ClassDecl_Extends, []);
+     (F_ClassDecl_List,
+      [Node T_ClassElement [(F_ClassElement_StaticBlock, []); (F_ClassElement_Method, []);
+                            (F_ClassElement_Field, [ex_field])];
+       Node T_ClassElement [(F_ClassElement_StaticBlock, []); (F_ClassElement_Method, [ex_method]);
+                            (F_ClassElement_Field, [])]])].
+
+Definition descend_all : list (event nat) -> nat -> path -> ty -> flavour -> option nat :=
+  fun _ v _ _ _ => Some (S v).
+
+Example ex_class_well_typed : well_typed gen_spec ex_class = true.
+Proof. vm_compute. reflexivity. Qed.
+
+Example ex_class_nodes : length (all_nodes gen_spec ex_class) = 13.
+Proof. vm_compute. reflexivity. Qed.
+
+Example ex_class_descends : forall h v p a fl, descend_all h v p a fl <> None.
+Proof. intros. discriminate. Qed.
+
+Example ex_class_trace_length : length (fst (walk_p gen_spec nat descend_all 0 ex_class)) = 26.
 Proof. vm_compute. reflexivity. Qed.
